@@ -11,9 +11,14 @@ PROP = {
         ],
         "runs": [{
             "component": "bip",
-            "quick": {"gen": [(3000, 40)], "enum": [(4, 3)]},
-            "thorough": {"gen": [(60000, 60)], "enum": [(s, 4) for s in range(1, 10)] + [(4, 5)]},
+            # ("huge", k): two buffers of 2 GiB + 4 KiB and 4 GiB + 4 KiB (offsets beyond 31 / 32 bits; address space only, nothing is
+            # stored; not produced with less than 12 GiB available). The cell-list monitor is not followed above 2^24 cells: these
+            # scripts are decided by equality with the model (tag huge-size-model-only) and by the direct monitor below.
+            "quick": {"gen": [(3000, 40)], "enum": [(4, 3), ("huge", 40)]},
+            "thorough": {"gen": [(60000, 60)], "enum": [(s, 4) for s in range(1, 10)] + [(4, 5), ("huge", 2000)]},
         }],
+        # the monitor of Spec/Bip.lean re-stated over intervals (Go), replayed on the huge buffers
+        "direct": [{"component": "bip"}],
         "rule": "scripts = NewBipBuffer(size) followed by random Claim/Commit/Head/Consume/Committed/Reset with boundary-biased "
                 "arguments (0, size, size+k, 2^31, 2^62, MaxInt) or every sequence over {0,1,size/2,size} (exhaustive); a script is "
                 "non-trivial when the model reached a non-default branch (wrapped region, promotion, clamped claim/commit, "
